@@ -95,6 +95,18 @@ def run(chk):
                 gm = r.choice([0, 0, 4])
                 lines.append(trans.case_line("T", gm, g, 32 * len(g) + 256, presence=r.choice([0, 12])))
                 meta.append(("T", gm, g, len(g), 32 * len(g) + 256, 32 * len(g) + 256))
+        # capacity sweep: a few forward cases again at every capacity from 0 to a little above what they need (the reported
+        # lengths must stay within the supplied ones at each of them)
+        nsw = 0
+        for (fn, mode, inp, inlen, outlen, gen_) in list(meta):
+            if fn not in "TS" or not (0 < len(inp) <= 14) or inlen != len(inp) or 0 in inp:
+                continue
+            for cap in range(0, 3 * len(inp) + 4):
+                lines.append(trans.case_line(fn, mode, inp, cap, presence=r.choice([0, 12])))
+                meta.append((fn, mode, inp, inlen, cap, -1))
+            nsw += 1
+            if nsw >= (3 if quick else 10):
+                break
         # every other table list with the library's real scratch sizing (buffers are kept between calls, so what an earlier,
         # longer call left behind the end of a pass input is still there)
         exact = 1 if (len(tl) + chk.seed) % 2 else 0
